@@ -541,7 +541,9 @@ def run(ctx):
         "chain, list/tuple, arithmetic, arguments and keyword arguments of helpers, attribute of the result, every position of "
         "a generator expression, self-application), each as callee and as called callee, plus %d hand-written hostile "
         "expressions (generator variables holding callables, every dunder spelling, unsupported node kinds); random nesting in "
-        "the thorough tier. distinct = distinct source text; every case contains a call or attribute shape" % (
+        "the thorough tier; every exposed callable (namespace functions incl. the real RecordDescriptor.getfields, str/repr/any/all, "
+        "every whitelisted constructor) applied to canaries in every argument position (implementation oracle only). "
+        "distinct = distinct source text; every case contains a call or attribute shape" % (
             len(CALL_TARGETS), len(ENCLOSURES), len(EXTRA)))
     ok = core.standard_proof_stage(ctx, ["props/C09.vo"], "C09", THEOREMS, search_fn=search, gens=["gen_sandbox"])
     ctx.assumptions += [
